@@ -1674,6 +1674,14 @@ func LoadNormalised(c *Ctx) (*Ctx, int, error) {
 	}
 	cur := c
 	total := 0
+	// pre-pass: new private helpers with named results get unnamed ones (denamed.go)
+	if dn, nd := denameResults(c, overlay); nd > 0 {
+		if nc, err := LoadOverlay(c.Repo, c.Config, dn); err == nil {
+			cur, overlay = nc, dn
+		} else if os.Getenv("RARECHECK_DEBUG") != "" {
+			fmt.Fprintln(os.Stderr, "de-named view does not load:", err)
+		}
+	}
 	for round := 0; round < 4; round++ {
 		next, n, err := buildInlinedOverlay(cur, overlay)
 		if err != nil {
